@@ -116,7 +116,7 @@ struct Runner {
             emit({});
             if (i < NREGEX) {
                 std::regex re(REGEXES[i]);
-                for (int n = 1; n < NNAMES; ++n) {
+                for (int n = 0; n < NNAMES; ++n) {
                     bool m = std::regex_match(std::string(NAMES[n]), re);
                     bool inSet = std::find(rxset[i].begin(), rxset[i].end(), (int64_t) n) != rxset[i].end();
                     if (m != inSet) oracle_fail("harness: std::regex_match disagrees with the generator on regex " + std::string(REGEXES[i]) + " and name " + NAMES[n]);
@@ -132,7 +132,7 @@ struct Runner {
             if (ok) switch (l[0]) {
             case 0: {
                 std::vector<int64_t> key(l.begin() + 1, l.end());
-                for (auto k : key) if (k < 1 || k >= NNAMES) ok = false;
+                for (auto k : key) if (k < 0 || k >= NNAMES) ok = false;   // (name 0 is the empty string: a valid level name)
                 if (!ok) break;
                 Pattern p;
                 for (auto k : key) p.push_back({false, k});
